@@ -67,4 +67,38 @@ PROPS = {
             "Libtest's own verdict is covered with C14 once the reporters are modelled",
         ],
     },
+    "C02": {
+        "module": "Cuke.Props.C02",
+        "namespace": "Cuke.C02",
+        "families": [("attempt.run", 400, 30000)],
+        "segments": {"attempt.run": [0]},
+        "skip_prefixes": ["mon.c09", "mon.c10"],
+        "modelled_not_verified": [
+            "catch_unwind / unwinding: a panic is an outcome value of the model",
+            "Metadata timestamps are dropped",
+            "step matching is abstracted to pass / no-match / ambiguous (C17 covers Collection::find)",
+        ],
+    },
+    "C09": {
+        "module": "Cuke.Props.C09",
+        "namespace": "Cuke.C09",
+        "families": [("attempt.run", 400, 30000)],
+        "segments": {"attempt.run": [1]},
+        "skip_prefixes": ["mon.c10"],
+        "modelled_not_verified": [
+            "the harness' World carries an instance id from a global counter and a mutation counter; every callback logs them",
+            "attribution of World::new calls to attempts uses the TX probe (last event sent in the same poll)",
+        ],
+    },
+    "C10": {
+        "module": "Cuke.Props.C10",
+        "namespace": "Cuke.C10",
+        "families": [("attempt.run", 400, 30000)],
+        "segments": {"attempt.run": [0, 2]},
+        "skip_prefixes": ["mon.c09"],
+        "modelled_not_verified": [
+            "catch_unwind and unwinding themselves; payload types String / &'static str / u32 are exercised",
+            "the process-wide panic hook: observed by a counting hook installed by the harness (monitor mon.c10), not modelled",
+        ],
+    },
 }
